@@ -360,13 +360,46 @@ Theorem upload_owner_only mp s alias cred :
   (forall u, alookup N.eqb alias (s_uploads s) = Some u -> opt_beq (u_owner u) cred = false) ->
   (forall n d f, (n <= 10000)%Z -> step mp s (MpuPart alias cred n d f) = (s, err "AccessDenied"))
   /\ (forall bk k ns, step mp s (MpuComplete alias cred bk k ns) = (s, err "AccessDenied"))
-  /\ (forall bk k, step mp s (MpuAbort alias cred bk k) = (s, err "AccessDenied")).
+  /\ (forall bk k, step mp s (MpuAbort alias cred bk k) = (s, err "AccessDenied"))
+  /\ (forall n sb sk r, step mp s (MpuPartCopy alias cred n sb sk r) = (s, err "AccessDenied")).
 Proof.
   intros H.
   assert (Ho : owned s alias cred = None).
   { unfold owned. destruct (alookup N.eqb alias (s_uploads s)) as [u|] eqn:E; [|reflexivity]. rewrite (H u eq_refl). reflexivity. }
   repeat split; intros; cbn [step]; rewrite Ho; [|reflexivity..].
   destruct (Z.ltb_spec 10000 n); [lia|reflexivity].
+Qed.
+
+(* a part copied from an object is the source itself, or exactly the bytes first..last of the range (inclusive), which must lie
+   inside the source; the part replaces the part of that number and nothing else changes *)
+Theorem part_copy_is_the_range mp s alias cred n sb sk range :
+  is_ok (snd (step mp s (MpuPartCopy alias cred n sb sk range))) = true ->
+  exists u ob d,
+    owned s alias cred = Some u /\ lookup s sb sk = Some ob
+    /\ match range with
+       | None => d = o_data ob
+       | Some h => exists st en, parse_copy_range h (N.of_nat (length (o_data ob))) = inl (st, en)
+                                 /\ st < en /\ en <= N.of_nat (length (o_data ob)) /\ d = slice (o_data ob) st en
+       end
+    /\ (exists u', alookup N.eqb alias (s_uploads (fst (step mp s (MpuPartCopy alias cred n sb sk range)))) = Some u'
+                   /\ alookup zeqb n (u_parts u') = Some d
+                   /\ (forall n', n' <> n -> alookup zeqb n' (u_parts u') = alookup zeqb n' (u_parts u)))
+    /\ s_objects (fst (step mp s (MpuPartCopy alias cred n sb sk range))) = s_objects s.
+Proof.
+  cbn [step]. destruct (owned s alias cred) as [u|] eqn:Eo; [|discriminate].
+  destruct (lookup s sb sk) as [ob|] eqn:El; [|discriminate].
+  destruct (part_copy_answer (o_data ob) range) as [d|e] eqn:Ea; [|discriminate]. intros _.
+  exists u, ob, d. split; [reflexivity|]. split; [reflexivity|]. split.
+  - unfold part_copy_answer in Ea. destruct range as [h|]; [|injection Ea as <-; reflexivity].
+    destruct (parse_copy_range h (N.of_nat (length (o_data ob)))) as [[st en]|e] eqn:Ep; [|discriminate]. injection Ea as <-.
+    exists st, en. split; [reflexivity|]. unfold parse_copy_range in Ep.
+    destruct (strip_prefix _ h) as [rest|]; [|discriminate]. destruct (split_on 45 rest []) as [|f [|l [|]]]; try discriminate.
+    destruct (parse_u64_rust f) as [st0|]; [|discriminate].
+    destruct (match l with [] => _ | _ => _ end) as [en0|]; [|discriminate].
+    destruct ((en0 <? st0) || (N.of_nat (length (o_data ob)) <=? en0)) eqn:Eb; [discriminate|]. injection Ep as <- <-.
+    apply orb_false_elim in Eb as [E1 E2]. apply N.ltb_ge in E1. apply N.leb_gt in E2. repeat split; try reflexivity; lia.
+  - split; [|reflexivity]. cbn [fst set_uploads s_uploads]. eexists. rewrite (alookup_aupdate_eq N.eqb neqb_spec). split; [reflexivity|].
+    cbn [u_parts]. split; [apply (alookup_aupdate_eq zeqb zeqb_spec)|]. intros n' Hn. apply (alookup_aupdate_ne zeqb zeqb_spec). exact Hn.
 Qed.
 
 Lemma opt_beq_spec x y : opt_beq x y = true <-> x = y.
